@@ -265,6 +265,30 @@ def c11(tier, replay):
         run.add("transitions", r["states"])
         fam_cov[fam] = {"members_with_the_feature": len(members), "placements_enumerated": r["distinct"], "sample": "1/%d" % smp}
         extra += [{"tag": "mate", "cmd": "position fen " + m[1]} for m in members]
+    # back-rank motifs: the greedy capture of an undefended heavy piece walks into a mate on the own back rank while quiet
+    # moves are several hundred centipawns worse - the positions in which a search that prunes or narrows its root
+    # window by the previous score sits on the blunder (files mirrored, colours swapped)
+    def mirror_files(fen):
+        pl, rest = fen.split(" ", 1)
+        rows = []
+        for row in pl.split("/"):
+            cells = []
+            for ch in row:
+                cells += ["1"] * int(ch) if ch.isdigit() else [ch]
+            cells.reverse()
+            out, gap = "", 0
+            for c_ in cells:
+                if c_ == "1":
+                    gap += 1
+                else:
+                    out += (str(gap) if gap else "") + c_
+                    gap = 0
+            rows.append(out + (str(gap) if gap else ""))
+        return "/".join(rows) + " " + rest
+    backrank = ["3q2k1/5ppp/8/8/8/8/3Q1PPP/4R1K1 b - - 0 1", "4r1k1/3q1ppp/8/8/8/8/5PPP/3Q2K1 w - - 0 1",
+                "4r1k1/3p1ppp/8/8/8/8/5PPP/3R2K1 w - - 0 1", "3r2k1/5ppp/8/8/8/8/3P1PPP/4R1K1 b - - 0 1"]
+    backrank += [mirror_files(f) for f in backrank]
+    extra += [{"tag": "mate", "cmd": "position fen " + f} for f in backrank]
     run.cov["families_from_spec"] = fam_cov
     sc = json.load(open(scen))
     json.dump(sc + extra, open(scen, "w"))
